@@ -17,18 +17,8 @@ Definition out_ok (m o : out) : bool :=
   | _, _ => false
   end.
 
-(* End-to-end histories: a presentation of a code on the path of ANOTHER topic is, for the store, an
-   Exchange like any other (serveWs exchanges the code before it looks at the token), but the
-   websocket is never let in: the flag marks those, and the admission-level view of their outcome is
-   "refused" whatever the store handed over. *)
-Fixpoint run_view (s : st) (ops : list (bool * op)) : list out :=
-  match ops with
-  | [] => []
-  | (wrong, o) :: r =>
-      let '(s1, x) := step s o in
-      (if wrong then match x with OTok _ _ => ORefused | y => y end else x) :: run_view s1 r
-  end.
-
+(* End-to-end histories carry a flag per operation: presented on the path of ANOTHER topic; the
+   admission-level view [run_view] is in Model/CodeStore.v. *)
 Inductive case :=
 | CSeq (t0 life : Z) (ops : list op) (obs : list out)
 | CSeqW (t0 life : Z) (ops : list (bool * op)) (obs : list out)
